@@ -540,6 +540,27 @@ def r5_promotion_complete(ctx):
                 ctx.bad("detach|borrowed-copy", dt.where(), "detach copies a borrowed string on a path where neither containment test succeeded")
         else:
             ctx.bad("detach|borrowed-tests|%s" % ",".join(sorted(tests)), dt.where(), "detach no longer tests both pool.contains and frame.contains_ptr before letting a borrowed string through (tests: %s)" % sorted(tests))
+    # every caller tells the copy routines which arena is the *frame*: the one whose pointers must not survive.  Passing any
+    # other arena (the persistent one has the same type) makes "does the frame contain this pointer" answer for the wrong
+    # arena, and strings that merely borrow frame memory are stored as they are.
+    ncall = 0
+    for fn in runtime_bodies(ctx):
+        for c in fn.calls():
+            if c.callee in (PROMOTE, "runtime::Value::detach", "arena::cow::ArenaCow::promote", "process::HostHandle::promote") and len(c.args) >= 3:
+                pid = parent_fn(fn.id)
+                if pid in (PROMOTE, "runtime::Value::detach"):
+                    want = ("frame",)
+                else:
+                    want = ("self.frame", "frame")
+                ncall += 1
+                got = sh(ne(fn.deep(c.args[2]))).lstrip("&")
+                short = pid.split("::")[-1]
+                ordn = sum(1 for r in ctx.records if r["rule"] == ctx.rule and r["instance"].startswith("frame-argument|%s#" % short))
+                if got in want:
+                    ctx.ok("frame-argument|%s#%d" % (short, ordn + 1), fn.where(c.block), "%s(.., %s)" % (c.callee.split("::")[-1], got))
+                else:
+                    ctx.bad("frame-argument|%s|%s" % (short, got[:20]), fn.where(c.block), "%s calls %s with `%s` where the frame arena belongs: the routine then tests containment in the wrong arena, so a string that only borrows frame memory is stored uncopied and changes when the frame is reused" % (short, c.callee.split("::")[-1], got))
+    ctx.floor("calls of the copy routines from the runtime", ncall, 8)
     cp = ctx.need("arena::cow::ArenaCow::promote")
     ctx.touch(cp)
     # pass-through aggregates
